@@ -29,7 +29,7 @@ func TestC04_QueuedAnnounce(t *testing.T) {
 	// count as durably blocked, so virtual time (the client's timeout) cannot advance while it waits
 	qkinds := []string{"s400", "s403", "s404", "s429", "s500", "s503", "reset", "truncate", "flipbit"}
 	pbt.Run(t, pbt.Config{Prop: "C04", Unit: "TestC04_QueuedAnnounce", TrackCurrent: true,
-		Rule: "chain of 1..5 ads; the publisher's gate is closed, head H1 is announced and its sync parks at its first block request with one fault armed at a drawn block-request index; 1..2 more ads are published and the new head H2 is announced (it waits behind the running sync); the gate opens. Oracle at exact quiescence: the publisher's notifications are exactly [error or success for H1, success for H2] (a fault the client masks makes the first a success), never fewer: the failure of H1 is reported although a newer announcement was already waiting; latest-sync is H2; every advertisement is stored, hashes to its CID and was reported; the notification counts cover the chain exactly. Non-trivial: the first notification is an error; distinct by (fault kind, index, chain length, transport, segment size).",
+		Rule: "chain of 1..5 ads; the publisher's gate is closed, head H1 is announced and its sync parks at its first block request with one fault armed at a drawn block-request index; 1..2 more ads are published and the new head H2 is announced (it waits behind the running sync); the gate opens. Oracle at exact quiescence: the publisher's notifications are exactly [error or success for H1, success for H2] (a fault the client masks makes the first a success), never fewer: the failure of H1 is reported although a newer announcement was already waiting; latest-sync is H2; every advertisement is stored, hashes to its CID and was reported; the notification counts cover the chain exactly; when the sync of H1 failed, announcing H1 again afterwards is acted upon (a notification for it arrives). Non-trivial: the first notification is an error; distinct by (fault kind, index, chain length, transport, segment size).",
 	}, func(t *rapid.T) queuedCase {
 		n := rapid.IntRange(1, 5).Draw(t, "n")
 		return queuedCase{N: n, Seg: rapid.SampledFrom([]int64{-1, 1, 2}).Draw(t, "seg"), Discovery: rapid.Bool().Draw(t, "discovery"), More: rapid.IntRange(1, 2).Draw(t, "more"),
@@ -135,6 +135,25 @@ func TestC04_QueuedAnnounce(t *testing.T) {
 				return
 			}
 			if evs[0].Err != nil {
+				// "its CID may be announced again": the failed head is not remembered as seen, so announcing it
+				// again is acted upon (what the sync of an already superseded head then does is not judged here)
+				p.ArmFaults(nil, nil)
+				n0 := s.NEvents()
+				if err := s.S.Announce(ctx, h1, p.Info()); err != nil {
+					res.Fail = "Announce (again): " + err.Error()
+					return
+				}
+				quiesce()
+				again := false
+				for _, ev := range s.EventsFrom(n0) {
+					if ev.Cid == h1 {
+						again = true
+					}
+				}
+				if !again {
+					res.Fail = fmt.Sprintf("%s: the sync of H1 failed and was reported, a newer announcement was queued at that moment; H1 announced again afterwards is ignored (no notification for it): the failed CID stayed in the duplicate filter", what)
+					return
+				}
 				res.NonTrivial = true
 				res.Classes = append(res.Classes, "first-failed:"+c.F.Kind)
 			} else {
